@@ -9,8 +9,11 @@ package dsync
 import (
 	"gorumsim/simrt"
 	"sync"
+	"sync/atomic"
 	"time"
 )
+
+type atomicPointer = atomic.Pointer[StallConfig]
 
 type Locker = sync.Locker
 // Pool is sync.Pool with deterministic (LIFO) reuse, partitioned by run: a worker process executes
@@ -158,4 +161,82 @@ func OnceValues[T1, T2 any](f func() (T1, T2)) func() (T1, T2) {
 		o.Do(func() { v1, v2 = f() })
 		return v1, v2
 	}
+}
+
+// ---------------------------------------------------------------- stalls (T6, race-detector runs)
+
+// StallConfig selects, per run, the statements at which goroutines of the code under test are
+// held up and for how long. Everything is a pure function of (Seed, site, fake time): no state
+// is shared between the goroutines that pass a site, so a stall synchronises with nobody - it
+// creates no happens-before edge, exactly like a preemption of the real program at that point.
+type StallConfig struct {
+	Seed     uint64
+	Permille uint32 // share of the sites that are stall sites in this run (sites in `go func` bodies: x4)
+	HitPct   uint32 // share of the passes through a stall site that actually stall
+	MaxShift uint32 // durations are 1µs << (0..MaxShift)
+	Budget   int64  // at most this many stalls per run (keeps the simulated duration of a run bounded)
+	fired    int64  // approximate: incremented without synchronisation, on purpose
+}
+
+var stallCfg atomicPointer
+
+// stallsHeld is raised while the harness lock is held (see world.hmutex). Deliberately unsynchronised.
+var stallsHeld bool
+
+// HoldStalls switches stalls off (on) for as long as the harness lock is held.
+//
+//go:norace
+func HoldStalls(on bool) { stallsHeld = on }
+
+// SetStalls installs (or, with nil, removes) the stall plan of the current run.
+func SetStalls(c *StallConfig) { stallCfg.Store(c) }
+
+// StallsFired reports (approximately) how many stalls the plan has executed.
+//
+//go:norace
+func StallsFired(c *StallConfig) int64 {
+	if c == nil {
+		return 0
+	}
+	return c.fired
+}
+
+func mix64(x uint64) uint64 {
+	x ^= x >> 33
+	x *= 0xff51afd7ed558ccd
+	x ^= x >> 33
+	x *= 0xc4ceb9fe1a85ec53
+	x ^= x >> 33
+	return x
+}
+
+// Stall is called before every statement of the instrumented package (L1 mode).
+//
+//go:norace
+func Stall(site string) {
+	c := stallCfg.Load()
+	if c == nil || stallsHeld {
+		return
+	}
+	h := c.Seed
+	for i := 0; i < len(site); i++ {
+		h = (h ^ uint64(site[i])) * 0x100000001b3
+	}
+	h = mix64(h)
+	pm := c.Permille
+	if len(site) > 3 && site[len(site)-3:] == "@go" {
+		pm *= 4
+	}
+	if uint32(h%1000) >= pm {
+		return
+	}
+	h2 := mix64(h ^ uint64(time.Now().UnixNano()))
+	if uint32(h2%100) >= c.HitPct {
+		return
+	}
+	if c.fired >= c.Budget {
+		return
+	}
+	c.fired++
+	time.Sleep(time.Microsecond << ((h2 >> 8) % uint64(c.MaxShift+1)))
 }
